@@ -31,3 +31,27 @@ Theorem C06_message_reaches_body_section : forall flags buf offs m fl o1 hs h,
       (m <| m_buflen := nnat (length buf) |> <| m_offs := offs |> <| m_state := MFLine |> <| m_fl := fl |>
          <| m_state := MHeaders |> <| m_hs := hs |> <| m_state := MBody |>).
 Proof. exact parse_sipmsg_sections. Qed.
+
+(* ---- messages laid back to back in one buffer ------------------------------------------------------------------------------------
+   A message parsed from the offset the previous one ended at, with a fresh (or Reset) object, gives the
+   result of parsing the same bytes alone at offset 0, moved by that offset: this is C11 with the earlier
+   messages as the junk prefix.  That what *follows* a complete message cannot change its result is C03
+   (C03_message; the only exemption is the mode in which the body is by definition the rest of the buffer:
+   no Content-Length and neither skip-body nor require-Content-Length). *)
+From Sipsp Require Import Shift ShiftMsg ExtMsg.
+Theorem C06_pipelined_message_is_the_message_alone_moved : forall flags before rest_of_buffer L nh nc,
+  mrel (nnat (length before))
+    (parse_sipmsg flags rest_of_buffer 0 (msg_init L (repeat hdr0 nh) (repeat pfrom0 nc)))
+    (parse_sipmsg flags (before ++ rest_of_buffer) (nnat (length before)) (msg_init L (repeat hdr0 nh) (repeat pfrom0 nc))).
+Proof.
+  intros flags before r L nh nc.
+  pose proof (fresh_message_shift flags before r 0 L nh nc ltac:(unfold nnat; lia)) as H.
+  replace (0 + nnat (length before)) with (nnat (length before)) in H by lia. exact H.
+Qed.
+Theorem C06_what_follows_a_complete_message_does_not_matter : forall flags b x k s0 o e s,
+  testbit flags bSIPMsgNoMoreData = false -> k <= nnat (length b) ->
+  parse_sipmsg flags b k s0 = Done o e s -> e <> EMore ->
+  body_is_rest flags e s \/
+  exists s'', parse_sipmsg flags (b ++ x) k s0 = Done o e s'' /\ fin_rel (nnat (length (b ++ x))) s s''.
+Proof. exact (fun flags b x k s0 o e s => msg_final flags b x k s0 o e s). Qed.
+Print Assumptions C06_pipelined_message_is_the_message_alone_moved.
